@@ -492,3 +492,56 @@ func lemmaHeaderRoundTrip(f *TimeBucketInfo) {
 //@ ensures #names: len(result.elementNames) == len(f.elementNames) && forall(k, 0, len(f.elementNames), result.elementNames[k] == f.elementNames[k])
 //@ ensures #types: len(result.elementTypes) == len(f.elementTypes) && forall(k, 0, len(f.elementTypes), result.elementTypes[k] == f.elementTypes[k])
 
+// ---------------------------------------------------------------------------------------------
+// C27: bookkeeping of the multi-bucket wire dataset. Every bucket appended to a NumpyMultiDataset starts at the row
+// count the dataset had before and is as long as the appended series; earlier buckets keep their ranges.
+// csRows(cs): number of rows of a column series (reflect length of its first column).
+//@ ghost func csRows(cs int) int
+
+//@ func (*ColumnSeries).Len
+//@ trusted "reflect: length of the first column, abstracted by csRows"
+//@ pure
+//@ ensures result == csRows(cs) && result >= 0
+
+//@ func (*ColumnSeries).GetNumColumns
+//@ trusted "number of columns"
+//@ pure
+
+//@ func (*ColumnSeries).GetColumnNames
+//@ trusted "the ordered column names"
+//@ pure
+
+//@ func (*ColumnSeries).GetColumn
+//@ trusted "map lookup of a column"
+//@ pure
+
+//@ func CastToByteSlice
+//@ trusted "unsafe/reflect: the bytes of a column"
+//@ pure
+
+//@ func (*TimeBucketKey).String
+//@ trusted "the key string"
+//@ pure
+
+//@ func (*NumpyMultiDataset).Append
+//@ props C27
+//@ option noimplicit
+// the two bookkeeping maps are distinct objects (NewNumpyMultiDataset makes them) and row counts stay far below 2^62
+//@ requires #distinctMaps: nmds.StartIndex != nmds.Lengths
+//@ requires #rows: 0 <= nmds.NumpyDataset.Length && nmds.NumpyDataset.Length <= 1000000000000000 && csRows(cs) <= 1000000000000000
+//@ loop 0 invariant #idx: 0 <= iter0 && iter0 <= rangelen
+//@ loop 1 invariant #idx: 0 <= iter0 && iter0 <= rangelen
+//@ loop 1 invariant #length: nmds.NumpyDataset.Length == old(nmds.NumpyDataset.Length) + csRows(cs)
+//@ loop 1 invariant #start: forallstr(k, pattern(nmds.StartIndex[k]), in(k, nmds.StartIndex) ==> (nmds.StartIndex[k] == old(nmds.NumpyDataset.Length) || (old(in(k, nmds.StartIndex)) && nmds.StartIndex[k] == old(nmds.StartIndex[k]))))
+//@ loop 1 invariant #lengths: forallstr(k, pattern(nmds.Lengths[k]), in(k, nmds.Lengths) ==> (nmds.Lengths[k] == csRows(cs) || (old(in(k, nmds.Lengths)) && nmds.Lengths[k] == old(nmds.Lengths[k]))))
+//@ ensures #length: err == nil ==> nmds.NumpyDataset.Length == old(nmds.NumpyDataset.Length) + csRows(cs)
+//@ ensures #start: err == nil ==> forallstr(k, pattern(nmds.StartIndex[k]), in(k, nmds.StartIndex) ==> (nmds.StartIndex[k] == old(nmds.NumpyDataset.Length) || (old(in(k, nmds.StartIndex)) && nmds.StartIndex[k] == old(nmds.StartIndex[k]))))
+//@ ensures #lengths: err == nil ==> forallstr(k, pattern(nmds.Lengths[k]), in(k, nmds.Lengths) ==> (nmds.Lengths[k] == csRows(cs) || (old(in(k, nmds.Lengths)) && nmds.Lengths[k] == old(nmds.Lengths[k]))))
+//@ ensures #rejected: err != nil ==> nmds.NumpyDataset.Length == old(nmds.NumpyDataset.Length)
+
+//@ func NewNumpyMultiDataset
+//@ props C27
+//@ option noimplicit
+//@ ensures #first: err == nil && nmds != nil && nmds.StartIndex != nmds.Lengths && nmds.NumpyDataset.Length == nds.Length
+//@ ensures #start: forallstr(k, pattern(nmds.StartIndex[k]), in(k, nmds.StartIndex) ==> nmds.StartIndex[k] == 0)
+//@ ensures #lengths: forallstr(k, pattern(nmds.Lengths[k]), in(k, nmds.Lengths) ==> nmds.Lengths[k] == nds.Length)
